@@ -36,7 +36,10 @@ PROPERTY = 'C11'
 MANIFEST = {
     'text': 'Lean 4 theorems over ALL event sequences at an endpoint (submissions, limit expiry at any moment, peer '
             'KEXINIT/kex/NEWKEYS of any number of exchanges, also started by both ends at once): every packet '
-            'written between own KEXINIT and own NEWKEYS is key-exchange or transport control (only_kex_between); '
+            'written between own KEXINIT and own NEWKEYS is key-exchange or transport control (only_kex_between — '
+            'also when the time limit passes between the two clock readings of one send_packet call, the nested '
+            'send_packet(MSG_IGNORE) being modelled as the re-entrant call it is; pre-repair witness '
+            'prefix_emits_data_during_exchange = defect F58); '
             'application packets on the wire followed by those held back equal the submissions in order, so '
             'nothing is lost, duplicated or reordered (deferred_fifo); every packet is sealed under the epoch '
             'begun by the last NEWKEYS before it (keys_fresh); the session id never changes (session_id_constant). '
@@ -100,6 +103,19 @@ def translate(ctx: Ctx) -> Dict[str, Any]:
     out += f'def deferCond (t : Int) (kexComplete authInProgress authComplete : Bool) : Prop :=\n  {defer_lean}\n\n'
     out += '/-- `send_packet`: a key re-exchange is started first (`limit` = byte or time limit reached) -/\n'
     out += f'def triggerCond (authComplete kexComplete limit : Bool) : Prop :=\n  {trig_lean}\n\n'
+    # the nested send_packet(MSG_IGNORE) evaluates the trigger again (its clock reading may be later): does the code
+    # look at `_kex_complete` afterwards and hold the packet back when that call started an exchange?  (repair of F58)
+    ign = next((n for n in ifs if any(isinstance(b, ast.Expr) and 'send_packet(MSG_IGNORE' in ast.unparse(b)
+                                      for b in n.body)), None)
+    if ign is None:
+        raise T.Untranslatable('send_packet: MSG_IGNORE insertion not found')
+    k = next(i for i, b in enumerate(ign.body) if isinstance(b, ast.Expr) and 'send_packet(MSG_IGNORE' in ast.unparse(b))
+    recheck = any(isinstance(b, ast.If) and ast.unparse(b.test) == 'not self._kex_complete' and
+                  any(isinstance(c, ast.Return) for c in b.body) and '_deferred_packets.append' in ast.unparse(b)
+                  for b in ign.body[k + 1:])
+    out += '/-- `send_packet`: after the nested `send_packet(MSG_IGNORE)` the packet is deferred if that call started a\n'
+    out += '    key exchange (`if not self._kex_complete: self._deferred_packets.append(...); return`) -/\n'
+    out += f'def recheckAfterIgnore : Bool := {"true" if recheck else "false"}\n\n'
     out += 'end AsyncsshModel.Gen.C11\n'
     changed = vlib.write_if_changed(vlib.module_path('AsyncsshModel.Gen.C11'), out)
     return {'gen_file': 'Gen/C11.lean', 'changed': changed}
@@ -110,10 +126,16 @@ class FakeTime:
 
     def __init__(self) -> None:
         self.offsets: Dict[int, float] = {}
+        self.armed: Dict[int, bool] = {}        # the limit passes just before the clock is read a second time
 
     def monotonic(self) -> float:
         f = sys._getframe(1)
         conn = f.f_locals.get('self')
+        if self.armed.get(id(conn)) and f.f_code.co_name == 'send_packet' and f.f_back is not None and \
+                f.f_back.f_code.co_name == 'send_packet' and f.f_back.f_locals.get('self') is conn:
+            # read by the nested send_packet(MSG_IGNORE): time has moved on since the outer call looked
+            self.armed[id(conn)] = False
+            self.offsets[id(conn)] = self.offsets.get(id(conn), 0.0) + 200000
         return realtime.monotonic() + self.offsets.get(id(conn), 0.0)
 
     def __getattr__(self, name: str) -> Any:
@@ -183,6 +205,10 @@ async def scripted(events: List[str], seed: int) -> Dict[str, Any]:
                     ft.offsets[id(c)] = ft.offsets.get(id(c), 0.0) + 200000
                 elif parts[0] == 'ls':
                     ft.offsets[id(s)] = ft.offsets.get(id(s), 0.0) + 200000
+                elif parts[0] == 'tc':
+                    ft.armed[id(c)] = True
+                elif parts[0] == 'ts':
+                    ft.armed[id(s)] = True
                 elif parts[0] in ('dcs', 'dsc'):
                     d = pair.C2S if parts[0] == 'dcs' else pair.S2C
                     if nd[d] < len(hub.writes[d]):
@@ -197,6 +223,7 @@ async def scripted(events: List[str], seed: int) -> Dict[str, Any]:
         out['line'] = (f'c_out={",".join(map(str, ctypes)) or "-"} s_out={",".join(map(str, stypes)) or "-"} '
                        f'c_del={",".join(map(str, c_sink)) or "-"} s_del={",".join(map(str, s_sink)) or "-"} '
                        f'failed={int(c.is_closed())}{int(s.is_closed())}')
+        out['c_types'], out['s_types'] = ctypes, stypes
         out['rekeys'] = (len(kt.keys.get(id(c), [])), len(kt.keys.get(id(s), [])))
         out['drained'] = all(nd[d] >= len(hub.writes[d]) for d in (pair.C2S, pair.S2C))
         out['c_del'], out['s_del'] = list(c_sink), list(s_sink)
@@ -218,10 +245,17 @@ def gen_script(rng: random.Random) -> List[str]:
         elif r < 0.45:
             tag = (tag + 1) % 250
             evs.append(f'ss:94:{tag}' if rng.random() < 0.8 else f'ss:4:{tag}')
-        elif r < 0.52:
+        elif r < 0.50:
             evs.append('lc')
-        elif r < 0.58:
+        elif r < 0.54:
             evs.append('ls')
+        elif r < 0.58:
+            # the time limit passes between the two clock readings of one send_packet call (outer call, nested IGNORE)
+            side = rng.choice('cs')
+            evs.append('t' + side)
+            if rng.random() < 0.8:
+                tag = (tag + 1) % 250
+                evs.append(f's{side}:94:{tag}')
         elif r < 0.8:
             evs.append('dcs')
         else:
@@ -235,6 +269,9 @@ SCRIPT_CORPUS = [
     ['lc', 'ls', 'sc:94:1', 'ss:94:2'] + ['dcs', 'dsc'] * 12,                    # both ends at once
     ['lc', 'sc:94:1', 'sc:4:2', 'sc:94:3'] + ['dcs', 'dsc'] * 10 + ['lc', 'sc:94:4'] + ['dcs', 'dsc'] * 10,   # repeated
     ['ls', 'ss:94:1', 'sc:94:2', 'sc:94:3'] + ['dsc', 'dcs'] * 12,
+    ['tc', 'sc:94:1', 'sc:94:2'] + ['dcs', 'dsc'] * 12,                  # F58: limit passes inside one send_packet call
+    ['ts', 'ss:94:1', 'tc', 'sc:94:2', 'ss:94:3'] + ['dsc', 'dcs'] * 14,
+    ['lc', 'tc', 'sc:94:1', 'sc:94:2'] + ['dcs', 'dsc'] * 12 + ['sc:94:3'] + ['dcs', 'dsc'] * 12,
 ]
 
 
@@ -368,6 +405,20 @@ def oracle_scripts(ctx: Ctx, res: OracleResult, hist: Hist) -> None:
                                         f'client closed={o["failed"][0]} server closed={o["failed"][1]} '
                                         f'{o.get("exception", "")} for script {o["events"]}', key))
             continue
+        # only_kex_between on the real wire: between an endpoint's KEXINIT and its NEWKEYS nothing but key-exchange
+        # and transport-control messages (no DEBUG / service / anything above 49)
+        for role, types in (('client', o['c_types']), ('server', o['s_types'])):
+            inkex = False
+            for k, t in enumerate(types):
+                if t == 20:
+                    inkex = True
+                elif t == 21:
+                    inkex = False
+                elif inkex and (t > 49 or t in (4, 5, 6)):
+                    res.failures.append(Failure('non-kex-message-between-own-kexinit-and-newkeys',
+                                                f'{role} wrote message type {t} between its KEXINIT and its NEWKEYS '
+                                                f'(types written: {types[:k + 2]}); script {o["events"]}', key))
+                    break
         for role, got, want in (('server', o['s_del'], want_s), ('client', o['c_del'], want_c)):
             if got != want[:len(got)]:
                 res.failures.append(Failure('channel-data-differs-across-rekey',
@@ -470,6 +521,16 @@ def replay(ctx: Ctx, rep: Dict[str, Any]) -> List[Failure]:
         for got, want in ((o['s_del'], want_s), (o['c_del'], want_c)):
             if got != want[:len(got)] or (o['drained'] and got != want):
                 fails.append(Failure('channel-data-differs-across-rekey', f'{got} vs {want}', r))
+        for role, types in (('client', o['c_types']), ('server', o['s_types'])):
+            inkex = False
+            for t in types:
+                if t == 20:
+                    inkex = True
+                elif t == 21:
+                    inkex = False
+                elif inkex and (t > 49 or t in (4, 5, 6)):
+                    fails.append(Failure('non-kex-message-between-own-kexinit-and-newkeys', f'{role}: {types}', r))
+                    break
         return fails
     o = pair.run(busy_session(r['rekey_c'], r['rekey_s'], r['sizes'], r['seed'], {k: v for k, v in r['algs'].items()}))
     fails = []
